@@ -112,3 +112,9 @@ package api
 // so whatever it has logged is a TRUNCATED set of diagnostics. The caller can only tell if the cancellation error is
 // there: adding it may depend on the cancel flag alone, not on whether some other error happens to have been logged.
 //@ guarded cancellation-is-always-reported C20: func=rebuildImpl ; in=api ; site=call AddError ; when-arg=3:"The build was canceled" ; scenario=cancel_after_error ; forbid=false:call log.HasErrors()
+
+// C20 ("a context that was disposed stays disposed; one server per context"): Serve installs its handler only on a
+// context that it has SEEN not disposed and without a handler, and it must still hold the mutex it saw that under:
+// a release of the mutex between the tests and the installation lets Dispose (or a second Serve) slip in between.
+//@ guarded serve-installs-its-handler-atomically C20: func=(*internalContext).Serve ; in=api ; site=store internalContext.handler ; require=false:ctx.didDispose && false:ctx.handler!=nil ; no-call-since-guards=Unlock
+//@ guarded watch-installs-its-watcher-atomically C20: func=(*internalContext).Watch ; in=api ; site=store internalContext.watcher ; require=false:ctx.didDispose && false:ctx.watcher!=nil ; no-call-since-guards=Unlock
